@@ -71,11 +71,23 @@ def gen_case(rng: np.random.Generator, small: bool = False) -> Dict[str, Any]:
     ok = int(rng.integers(0, 6))
     omega = [0.0, np.pi, 1e-9, 2 * np.pi * int(rng.integers(0, L + 1)) / max(L, 1) % np.pi, float(rng.uniform(0, np.pi)),
              float(rng.uniform(0.05, 3.0))][ok]
+    if wk == 0 and L >= 4 and rng.random() < 0.4:
+        w[rng.integers(1, L - 1, size=max(1, L // 8))] = 0.0           # window with interior zeros (notched / two-lobe windows)
     offs = float(rng.choice([0.0, 0.0, 10.0, 1e3])) * float(rng.standard_normal())
     slope = float(rng.choice([0.0, 0.0, 0.1])) * float(rng.standard_normal())
     t = np.arange(N)
     x1 = rng.standard_normal(N) + offs + slope * t
     x2 = 0.5 * np.roll(x1, 2) + rng.standard_normal(N) - offs
+    dk = int(rng.integers(0, 6))
+    if dk == 0:                                                         # zero-filled data gaps (exact zeros inside segments)
+        for _ in range(int(rng.integers(1, 4))):
+            a = int(rng.integers(0, N)); b = min(N, a + int(rng.integers(1, max(2, N // 5))))
+            x1[a:b] = 0.0
+            if rng.random() < 0.5:
+                x2[a:b] = 0.0
+    elif dk == 1:                                                       # quantised (ADC counts): many exact zeros and repeats
+        x1 = np.round(2.0 * (x1 - offs - slope * t))
+        x2 = np.round(1.5 * (x2 + offs))
     return {"L": L, "N": N, "starts": starts.astype(np.int64), "w": w.astype(np.float64), "omega": float(omega),
             "x1": x1, "x2": x2, "omega_class": ok, "start_mode": mode}
 
